@@ -218,7 +218,15 @@ impl<ManifoldData, ContactData: Default + Copy> ContactManifold<ManifoldData, Co
             }
             let new_local_p1 = local_p2 - self.local_n1 * dist;
 
-            if na::distance_squared(&pt.local_p1, &new_local_p1) > dist_sq_threshold {
+            // `local_p1` only sees the motion tangent to the contact plane. Also bound the
+            // motion along the normal: otherwise a large jump along `-local_n1` of a
+            // penetrating contact (the shapes passing through each other) keeps the stale
+            // contacts with a huge penetration depth.
+            let normal_motion = dist - pt.dist;
+
+            if na::distance_squared(&pt.local_p1, &new_local_p1) + normal_motion * normal_motion
+                > dist_sq_threshold
+            {
                 return false;
             }
 
